@@ -18,8 +18,17 @@ def _net(i, o):
     return nets.ResidualNet(i, o, hidden_features=2, num_blocks=1)
 
 
+def _multiscale():
+    m = TR.MultiscaleCompositeTransform(num_transforms=2)
+    hidden = m.add_transform(TR.LULinear(4), [4])
+    m.add_transform(TR.LULinear(hidden[0]), hidden)
+    return m
+
+
 CONFIGS = {
     "AffineCoupling": (lambda: TR.AffineCouplingTransform(torch.tensor([1, 0]), _net), (2, 2), ("forward", "inverse")),
+    "AdditiveCoupling": (lambda: TR.AdditiveCouplingTransform(torch.tensor([1, 0]), _net), (2, 2), ("forward", "inverse")),
+    "Multiscale": (lambda: _multiscale(), (2, 4), ("forward",)),
     "PiecewiseRQCoupling": (lambda: TR.PiecewiseRationalQuadraticCouplingTransform(torch.tensor([1, 0]), _net, num_bins=2, tails="linear", tail_bound=3.0), (1, 2), ("forward", "inverse")),
     "MaskedAffineAutoregressive": (lambda: TR.MaskedAffineAutoregressiveTransform(2, 2, num_blocks=1), (2, 2), ("forward", "inverse")),
     "LULinear": (lambda: TR.LULinear(2), (2, 2), ("forward", "inverse", "weight", "weight_inverse", "logabsdet")),
